@@ -60,14 +60,14 @@ def elem_of(bt, b):
 
 
 def cases(rng, tier):
-    n = {"quick": 700, "thorough": 6000, "search": 2000}[tier]
+    n = {"quick": 900, "thorough": 6000, "search": 2000}[tier]
     out = []
     for _ in range(n):
         B = rng.randint(1, 4)
         N = rng.randint(2, 4)
         shape = [rng.randint(2, 3) for _ in range(N)]
         stream = "int" if rng.random() < 0.6 else "float"
-        op = rng.choice(OPS + ["round_tt", "round_tt", "round_tucker"])      # rounding is where batch and non-batch code differ most
+        op = rng.choice(OPS + ["round_tt", "round_tt", "round_tucker", "batchsel", "batchsel", "batchsel", "batchsel", "getitem"])      # rounding is where batch and non-batch code differ most
         cls = rng.choice(CLASSES)
         c = {"op": op, "B": B, "shape": shape, "stream": stream, "cls": cls,
              "x": [e.to_json() for e in gen_batch(rng, B, shape, cls, stream)], "seed": rng.randrange(1 << 30)}
@@ -87,6 +87,12 @@ def cases(rng, tier):
             c["key"] = key
         if op == "batchsel":
             c["bkey"] = ["i", rng.randint(-B, B - 1)] if rng.random() < 0.5 else gen_slice(rng, B)
+            if rng.random() < 0.8:
+                # ... combined with a key on the other modes (t[b, i, :], t[b, :, i, :], t[1:, i]): ints and slices, at least one slice
+                key = [["i", rng.randint(-s, s - 1)] if rng.random() < 0.45 else gen_slice(rng, s) for s in shape]
+                if all(k[0] == "i" for k in key):
+                    key[rng.randrange(N)] = ["s", None, None, None]
+                c["key"] = key[:rng.randint(1, N)] if rng.random() < 0.25 else key
         if op in ("round_tt", "round_tucker", "construct_r"):
             c["rmax"] = rng.choice([1, 1, 2, 3])
         if op == "orth":
@@ -202,6 +208,9 @@ def run_case(ctx, case):
     if op == "batchsel":
         bk = case["bkey"]
         k = int(bk[1]) if bk[0] == "i" else slice(bk[1], bk[2], bk[3])
+        if case.get("key") is not None:
+            k = (k,) + py_key(case["key"])
+            ctx.count("batchsel:with a key on the other modes")
         r = safe(lambda: bt[k])
         sel = np.stack(dens)[k]
         if bk[0] == "s" and sel.shape[0] == 0:
